@@ -107,3 +107,5 @@ def run(ctx, prog):
     ctx.floor('prange loops', n_prange, 5)
     ctx.floor('kernels taking the precision', n_prec, 5)
     ctx.floor('timing-based dispatch sites', n_sites, 2)
+    from .. import kernelvalues as _kv
+    ctx.floor('kernel value cases interpreted', _kv.clause(ctx, prog, 'C11-D5', ('partitioned', 'template')), 20)
